@@ -6,11 +6,13 @@ import (
 	"encoding/json"
 	"errors"
 	"fmt"
+	"net/http/httptest"
 	"os"
 	"path/filepath"
 	"sort"
 	"strings"
 	"sync"
+	"syscall"
 	"testing"
 
 	"github.com/tailscale/setec/audit"
@@ -38,12 +40,28 @@ type recSink struct {
 	failWrite int // 1-based index of the Write that fails (0 = never)
 	partial   bool
 	failSync  int
+	errKind   string
 	dbPath    string
 	pre       []byte
 	broken    bool // a Write has failed
 	syncFail  bool // a Sync failed during the current call
 	dangling  bool // the log currently ends in a fragment without newline (after a partial write)
 	fused     bool // a later write was appended to such a fragment during the current call
+}
+
+// deviceError is what the failing device reports: a plain error, or the error an *os.File reports for
+// a full disk, an I/O error, an exhausted quota (a record that cannot be written is a record that
+// cannot be written, whatever the reason).
+func (s *recSink) deviceError(op string) error {
+	switch s.errKind {
+	case "enospc":
+		return &os.PathError{Op: op, Path: "/var/log/setec/audit.log", Err: syscall.ENOSPC}
+	case "eio":
+		return &os.PathError{Op: op, Path: "/var/log/setec/audit.log", Err: syscall.EIO}
+	case "edquot":
+		return &os.PathError{Op: op, Path: "/var/log/setec/audit.log", Err: syscall.EDQUOT}
+	}
+	return errors.New("injected: audit device failed (" + op + ")")
 }
 
 func (s *recSink) fileSame() bool {
@@ -93,7 +111,7 @@ func (s *recSink) writeLocked(p []byte) (int, error) {
 			ev.Data = nil
 		}
 		s.events = append(s.events, ev)
-		return n, errors.New("injected: audit device full")
+		return n, s.deviceError("write")
 	}
 	s.events = append(s.events, ev)
 	if len(p) > 0 {
@@ -111,7 +129,7 @@ func (s *recSink) Sync() error {
 		ev.Failed = true
 		s.syncFail = true
 		s.events = append(s.events, ev)
-		return errors.New("injected: fsync failed")
+		return s.deviceError("sync")
 	}
 	s.events = append(s.events, ev)
 	return nil
@@ -155,8 +173,13 @@ type AuditCase struct {
 	FailWrite int            `json:"fail_write"` // counted over the records of Ops
 	Partial   bool           `json:"partial"`
 	FailSync  int            `json:"fail_sync"`
-	HTTP      bool           `json:"http"` // calls go through the registered HTTP handlers and setec.Client (WhoIs table), not db.DB directly
-	Forwarded bool           `json:"forwarded,omitempty"` // HTTP only: every request carries forwarding headers naming some other address
+	// from this call on (1-based; 0 = never) the audit writer has been closed - twice - while the server
+	// still answers requests (the drain at shutdown): from then on a request either still gets its
+	// complete record into the log or fails closed
+	CloseAt   int    `json:"close_at,omitempty"`
+	ErrKind   string `json:"err_kind,omitempty"`  // what the failing device reports: "" (a plain error) | enospc | eio | edquot
+	HTTP      bool   `json:"http"`                // calls go through the registered HTTP handlers and setec.Client (WhoIs table), not db.DB directly
+	Forwarded bool   `json:"forwarded,omitempty"` // HTTP only: every request carries forwarding headers naming some other address
 }
 
 // two names beyond any plausible line-length budget that differ only in their last byte
@@ -191,6 +214,12 @@ func genAuditCase(rt *rapid.T) AuditCase {
 	case 2:
 		c.FailSync = rapid.IntRange(1, len(c.Ops)).Draw(rt, "failsync")
 	}
+	if c.FailWrite > 0 || c.FailSync > 0 {
+		c.ErrKind = rapid.SampledFrom([]string{"", "", "enospc", "enospc", "eio", "edquot"}).Draw(rt, "errkind")
+	}
+	if c.FailWrite == 0 && c.FailSync == 0 && rapid.IntRange(0, 5).Draw(rt, "closeat") == 0 {
+		c.CloseAt = rapid.IntRange(1, len(c.Ops)).Draw(rt, "closeatidx")
+	}
 	return c
 }
 
@@ -200,7 +229,8 @@ func runC06(t *testing.T, c AuditCase) (*h.Violation, h.Info) {
 	defer os.RemoveAll(dir)
 	path := filepath.Join(dir, "db")
 	sink := &recSink{}
-	d, err := db.Open(path, dbx.DummyKey(), audit.New(sink))
+	aw := audit.New(sink)
+	d, err := db.Open(path, dbx.DummyKey(), aw)
 	if err != nil {
 		return h.V("harness", "open: %v", err), info
 	}
@@ -210,8 +240,9 @@ func runC06(t *testing.T, c AuditCase) (*h.Violation, h.Info) {
 		callers = append(callers, dbx.Restricted(i+1, r))
 	}
 	var tgt dbx.Target = dbx.DBTarget{D: d}
+	var ht *dbx.HTTPTarget
 	if c.HTTP {
-		ht, err := dbx.NewHTTP(d, callers)
+		ht, err = dbx.NewHTTP(d, callers)
 		if err != nil {
 			return h.V("harness", "server: %v", err), info
 		}
@@ -243,16 +274,23 @@ func runC06(t *testing.T, c AuditCase) (*h.Violation, h.Info) {
 	sink.mu.Lock()
 	sink.dbPath = path
 	sink.nWrite, sink.nSync = 0, 0
-	sink.failWrite, sink.partial, sink.failSync = c.FailWrite, c.Partial, c.FailSync
+	sink.failWrite, sink.partial, sink.failSync, sink.errKind = c.FailWrite, c.Partial, c.FailSync, c.ErrKind
 	sink.events = nil
 	sink.mu.Unlock()
 	sawDenial, sawDelivery, sawUnchanged, sawFaultOnMutation := false, false, false, false
+	writerClosed := false
 	for i, op := range c.Ops {
 		if op.Caller >= len(callers) {
 			op.Caller = 0
 		}
 		caller := callers[op.Caller]
 		ver := tr.Resolve(op)
+		if c.CloseAt > 0 && i+1 == c.CloseAt {
+			aw.Close()
+			aw.Close()
+			writerClosed = true
+			info.Class("audit-writer-closed-while-serving")
+		}
 		pre, _ := os.ReadFile(path)
 		sink.mu.Lock()
 		sink.pre = pre
@@ -262,7 +300,23 @@ func runC06(t *testing.T, c AuditCase) (*h.Violation, h.Info) {
 		sink.mu.Unlock()
 		shadow := tr.Clone()
 		want := shadow.Expect(caller.Rules, op, ver)
-		got := tgt.Do(caller, op, ver)
+		var got dbx.Result
+		if ht != nil && op.Kind == "list" && (i+len(c.Ops))%2 == 0 {
+			// the same listing through the side door: the HTML page the server shows at "/" (a person
+			// with a browser on the tailnet). What it shows is not parsed; that it was recorded is the point.
+			req := httptest.NewRequest("GET", "/", nil)
+			req.RemoteAddr = dbx.AddrOf(caller)
+			w := httptest.NewRecorder()
+			ht.Mux.ServeHTTP(w, req)
+			info.Class("listing-through-the-html-page")
+			if w.Code == 200 {
+				got = want
+			} else {
+				got = dbx.Result{Class: model.Other, Err: fmt.Sprintf("GET / answered %d", w.Code), IsList: true}
+			}
+		} else {
+			got = tgt.Do(caller, op, ver)
+		}
 		sink.mu.Lock()
 		events := sink.events
 		broken, syncFail, fused := sink.broken, sink.syncFail, sink.fused
@@ -347,7 +401,7 @@ func runC06(t *testing.T, c AuditCase) (*h.Violation, h.Info) {
 		if recordOK {
 			nRec = 1
 		}
-		healthy := !broken && !faultNow
+		healthy := !broken && !faultNow && !writerClosed
 		if healthy {
 			if nRec < minRec || nRec > maxRec || nWrites > maxRec {
 				clause := "every-disclosure-mutation-denial-recorded"
